@@ -41,6 +41,7 @@ import (
 )
 
 type Clause struct {
+	Assumed bool // `assume`: a free assumption on entry (listed in the evidence), not an obligation of callers
 	Kind  string // requires ensures invariant
 	Name  string
 	Tags  []string
@@ -111,10 +112,11 @@ type SpecDefine struct {
 }
 
 type SpecAxiom struct {
-	Name string
-	Expr CExpr
-	Src  string
-	File string
+	Name    string
+	Expr    CExpr
+	Src     string
+	File    string
+	PkgPath string
 }
 
 type SpecLemma struct {
@@ -162,7 +164,7 @@ func NewSpecs() *Specs {
 	return &Specs{Fns: map[string]*SpecFn{}, Consts: map[string]*SpecConst{}, Defines: map[string]*SpecDefine{}, Ghosts: map[string]string{}, IfacePure: map[string]bool{}}
 }
 
-var directiveRe = regexp.MustCompile(`^(sort|fn|const|define|axiom|lemma|ginv|pkginv|noinv|needsinv|inline|ghost|errattr|ifacepure|package|func|trusted|pure|modifies|let|requires|ensures|loop|invariant|decreases|bind)\b`)
+var directiveRe = regexp.MustCompile(`^(sort|fn|const|define|axiom|lemma|ginv|pkginv|noinv|needsinv|inline|ghost|errattr|ifacepure|package|func|trusted|pure|modifies|let|requires|assume|ensures|loop|invariant|decreases|bind)\b`)
 
 type logicalLine struct {
 	text string
@@ -206,7 +208,7 @@ func readLogicalLines(path string, repoStyle bool) ([]logicalLine, error) {
 	return out, sc.Err()
 }
 
-var clauseHead = regexp.MustCompile(`^(requires|ensures|invariant|axiom|lemma|ginv|pkginv)(\[[^\]]*\])?\s+([A-Za-z0-9_.\-]+)\s*:\s*(.*)$`)
+var clauseHead = regexp.MustCompile(`^(requires|assume|ensures|invariant|axiom|lemma|ginv|pkginv)(\[[^\]]*\])?\s+([A-Za-z0-9_.\-]+)\s*:\s*(.*)$`)
 
 func (s *Specs) LoadFile(path string, repoStyle bool, defaultPkg string) error {
 	lines, err := readLogicalLines(path, repoStyle)
@@ -366,7 +368,7 @@ func (s *Specs) LoadFile(path string, repoStyle bool, defaultPkg string) error {
 				return errf("%v", err)
 			}
 			if word == "axiom" {
-				s.Axioms = append(s.Axioms, &SpecAxiom{m[3], e, m[4], path})
+				s.Axioms = append(s.Axioms, &SpecAxiom{m[3], e, m[4], path, curPkg})
 			} else {
 				s.Lemmas = append(s.Lemmas, &SpecLemma{m[3], parseTags(m[2]), e, m[4], path})
 			}
@@ -456,7 +458,7 @@ func (s *Specs) LoadFile(path string, repoStyle bool, defaultPkg string) error {
 			} else {
 				cur.Decreases = e
 			}
-		case "requires", "ensures", "invariant":
+		case "requires", "assume", "ensures", "invariant":
 			if cur == nil {
 				return errf("%s outside func block", word)
 			}
@@ -477,6 +479,10 @@ func (s *Specs) LoadFile(path string, repoStyle bool, defaultPkg string) error {
 				}
 			}
 			switch word {
+			case "assume":
+				cl.Kind = "requires"
+				cl.Assumed = true
+				cur.Requires = append(cur.Requires, cl)
 			case "requires":
 				cur.Requires = append(cur.Requires, cl)
 			case "ensures":
